@@ -202,3 +202,23 @@ fn empty_environment_values_and_dotted_profile_names() {
     assert_eq!(c.banner, "", "PX_BANNER is set (to the empty string): the environment wins over the base file");
     clear(); let _ = std::fs::remove_dir_all(d);
 }
+
+/// only `PX_PROFILE` itself is reserved: keys that merely START with `profile` are ordinary configuration keys
+#[derive(serde::Deserialize, Debug, PartialEq)]
+#[serde(deny_unknown_fields)]
+struct Profiler { sample_rate: i64 }
+#[derive(serde::Deserialize, Debug, PartialEq)]
+#[serde(deny_unknown_fields)]
+struct WithProfileLikeKeys { profiler: Profiler, profile_pictures_url: String, profiles: Vec<String> }
+#[test]
+fn keys_that_start_with_profile_are_ordinary_keys() {
+    let _g = ENV.lock().unwrap_or_else(|e| e.into_inner()); clear();
+    let d = std::env::temp_dir().join(format!("verif-c18-{}-profilelike", std::process::id()));
+    std::fs::create_dir_all(&d).unwrap();
+    std::fs::write(d.join("base.yml"), "profiler:\n  sample_rate: 10\nprofile_pictures_url: base-pictures\nprofiles: [a]\n").unwrap();
+    std::fs::write(d.join("dev.yml"), "profiler:\n  sample_rate: 20\n").unwrap();
+    unsafe { std::env::set_var("PX_PROFILER__SAMPLE_RATE", "30"); std::env::set_var("PX_PROFILE_PICTURES_URL", "env-pictures"); std::env::set_var("PX_PROFILE", "dev"); }
+    let c: WithProfileLikeKeys = ConfigLoader::<Profile>::new().configuration_dir(&d).load().unwrap();
+    assert_eq!((c.profiler.sample_rate, c.profile_pictures_url.as_str()), (30, "env-pictures"), "a key that starts with `profile` was not taken from the environment");
+    clear(); let _ = std::fs::remove_dir_all(d);
+}
